@@ -758,6 +758,11 @@ fn gen_fix(defined: &[String], tkeys: &[String], m: &Material, rng: &mut Rng) ->
     let mut o = json!({"template": tmpl});
     if rng.chance(1, 2) {
       o["expandEnd"] = json!({"regex": ",", "stopBy": "neighbor"});
+    } else if rng.chance(1, 3) {
+      // any rule may be an expansion, a bare relation included (it answers with the RELATED node,
+      // which may lie on the other side of the match: the replaced range is then empty, not negative)
+      let mut k = Knobs { share_vars: false, utils: vec![], var_counter: 60 };
+      o["expandEnd"] = gen_rule(m, rng, &mut k, 1);
     }
     if rng.chance(1, 4) {
       let mut k = Knobs { share_vars: false, utils: vec![], var_counter: 50 };
@@ -869,6 +874,10 @@ pub fn witnesses() -> Vec<String> {
     // a rule that is turned off AND restricted to paths: it reports nothing, through any printer
     "id: offglob\nlanguage: js\nseverity: off\nfiles: ['**/*.js', 'src/**']\nrule: {kind: identifier}\n".into(),
     "id: offglob2\nlanguage: js\nseverity: off\nignores: ['**/nothing/**']\nrule: {pattern: foo($$$A)}\n".into(),
+    // expansions made of a bare relation: the related node lies BEFORE the match for expandEnd, AFTER it for expandStart
+    "id: expinv1\nlanguage: js\nrule: {kind: identifier}\nfix: {template: X, expandEnd: {follows: {kind: identifier, stopBy: end}}}\n".into(),
+    "id: expinv2\nlanguage: js\nrule: {kind: number}\nfix: {template: X, expandStart: {precedes: {kind: number, stopBy: end}}}\n".into(),
+    "id: expinv3\nlanguage: python\nrule: {kind: identifier}\nfix: {template: '', expandEnd: {follows: {kind: identifier, stopBy: end}}, expandStart: {precedes: {kind: identifier, stopBy: end}}}\n".into(),
     "id: h9\nlanguage: js\nutils:\n  A: {inside: {matches: B, stopBy: end}}\n  B: {has: {matches: A, stopBy: end}}\nrule: {kind: identifier, matches: A}\n".into(),
     "id: dup\nlanguage: js\nrule: {pattern: foo($$$A)}\nrewriters:\n- {id: r, rule: {kind: identifier}, fix: x}\n- {id: r, rule: {kind: number}, fix: y}\n".into(),
     "id: of\nlanguage: js\nutils:\n  U: {nthChild: {position: 1, ofRule: {matches: U}}}\nrule: {matches: U}\n".into(),
